@@ -13,7 +13,7 @@ type Job struct {
 	Engine     string   `json:"engine"`
 	Property   string   `json:"property"`
 	Tier       string   `json:"tier"`
-	Mode       string   `json:"mode"` // seeds | plans | enum (systematic fault placement over base scenarios, engine B)
+	Mode       string   `json:"mode"`      // seeds | plans | enum (systematic fault placement over base scenarios, engine B)
 	FirstVar   int      `json:"first_var"` // enum: resume the first base scenario at this variant (after a crash of the process)
 	MaxPairs   int      `json:"max_pairs"` // enum: sampled pairs of placements per base scenario
 	BatchSeed  uint64   `json:"batch_seed"`
